@@ -4,8 +4,11 @@ import (
 	"bytes"
 	stded "crypto/ed25519"
 	"crypto/sha512"
+	"encoding/json"
 	"fmt"
 	"math/big"
+	"os"
+	"path/filepath"
 	"strings"
 
 	"github.com/cloudflare/pat-go/ed25519"
@@ -21,7 +24,7 @@ func init() {
 		Rule: "seeded (seed, 32-byte blind incl. all-zero and all-0xff, context in {nil, empty, 1 byte, 200 bytes}, message) and all pairs from a pool of 6 blinds. Oracle: blinded key bytes == encode(k*A) with k = int_le(SHA-512(blind||0x00||ctx)[0:32]) mod L computed with crypto/sha512 and the math/big Edwards model; " +
 			"BlindKeySignWithContext is deterministic, its signature verifies under the blinded key with crypto/ed25519.Verify and with this package's Verify and not under the original key; Unblind(Blind(A)) == A == Blind(Unblind(A)); two blindings commute; another blind or another context gives another key. Histories of 14 consecutive calls over related inputs (two keys, one-bit neighbours, repeats, nil/empty context) with key, blind and context in buffers refilled in place, each compared with the stateless reference. " +
 			"distinct_nontrivial = distinct (blind class, context length, message length) keys",
-		Floors:      []string{"blinded_key_equals_reference", "signature_verifies_std_and_fork", "signature_deterministic", "unblind_inverts", "commutes", "blind_separation", "context_separation", "signature_fails_under_original", "arguments_share_one_buffer", "history_calls_agree_with_reference", "long_contexts"},
+		Floors:      []string{"blinded_key_equals_reference", "signature_verifies_std_and_fork", "signature_deterministic", "unblind_inverts", "commutes", "blind_separation", "context_separation", "signature_fails_under_original", "arguments_share_one_buffer", "history_calls_agree_with_reference", "long_contexts", "rare_blinding_factors", "extreme_public_key_encodings"},
 		Assumptions: []string{"honest public keys lie in the prime-order subgroup", "crypto/ed25519 is the standard verifier"},
 		Run:         runC15,
 	})
@@ -125,7 +128,133 @@ func c15History(c *core.Ctx, r *core.Rand, tag string) {
 	c.Distinctf("history:%s", tag)
 }
 
+// c15RareFactors: (blind, context) pairs whose blinding factor is rare (divisible by 2^32, below 2^224, ...; found once by
+// cmd/mkfactors, recomputed here), and public keys with extreme encodings (y just below p, y with its top bytes
+// saturated, both signs of x), each through blind / unblind / blinded signing against the reference.
+func c15RareFactors(c *core.Ctx) {
+	var fx []struct {
+		Kind, Blind, Context string
+	}
+	b, err := os.ReadFile(filepath.Join(core.VerifDir(), "fixtures", "ed25519-rare-factors.json"))
+	must(err)
+	must(json.Unmarshal(b, &fx))
+	two := big.NewInt(2)
+	for fi, f := range fx {
+		if !c.Next() {
+			continue
+		}
+		r := c.CaseRng()
+		blind, ctx := unhexs(f.Blind), unhexs(f.Context)
+		k := c15Scalar(blind, ctx)
+		ok := false
+		switch f.Kind {
+		case "divisible-by-2^32":
+			ok = k.Sign() != 0 && new(big.Int).Mod(k, new(big.Int).Exp(two, big.NewInt(32), nil)).Sign() == 0
+		case "below-2^224":
+			ok = k.BitLen() <= 224
+		default:
+			ok = k.Sign() != 0 && new(big.Int).Mod(k, big.NewInt(65536)).Sign() == 0
+		}
+		if !ok {
+			c.Class("info_rare_factor_fixture_stale")
+			continue
+		}
+		for t := 0; t < 3; t++ {
+			seed := r.Bytes(32)
+			spriv := stded.NewKeyFromSeed(seed)
+			pub := []byte(spriv[32:])
+			A, _ := ref.EdDecode(pub)
+			want := ref.EdEncode(ref.EdMul(k, A))
+			msg := r.Bytes(20)
+			c.Eval(1)
+			d := map[string]any{"factor_kind": f.Kind, "blind": f.Blind, "context": f.Context, "seed": core.Hex(seed)}
+			bad := func(cls, what string) {
+				c.Violation("rare-factor:"+cls, "Ed25519 key blinding with a blinding factor that is "+f.Kind+": "+what, d)
+			}
+			pan, pv, where := core.Guard(func() {
+				bp, err := ed25519.BlindPublicKeyWithContext(ed25519.PublicKey(pub), blind, ctx)
+				if err != nil || !bytes.Equal(bp, want) {
+					bad("blinded-key-differs", fmt.Sprintf("the blinded public key is not the reference's (err=%v)", err))
+					return
+				}
+				up, err := ed25519.UnblindPublicKeyWithContext(bp, blind, ctx)
+				if err != nil || !bytes.Equal(up, pub) {
+					bad("unblind-does-not-invert", fmt.Sprintf("Unblind(Blind(A)) != A (err=%v)", err))
+					return
+				}
+				ub, err := ed25519.UnblindPublicKeyWithContext(ed25519.PublicKey(pub), blind, ctx)
+				if err == nil {
+					if bb, err := ed25519.BlindPublicKeyWithContext(ub, blind, ctx); err != nil || !bytes.Equal(bb, pub) {
+						bad("blind-does-not-invert-unblind", "Blind(Unblind(A)) != A")
+						return
+					}
+				} else {
+					bad("unblind-error", "Unblind refused an ordinary key: "+err.Error())
+					return
+				}
+				sig := ed25519.BlindKeySignWithContext(ed25519.PrivateKey(append([]byte{}, spriv...)), msg, blind, ctx)
+				if !stded.Verify(stded.PublicKey(want), msg, sig) {
+					bad("signature-does-not-verify", "a blinded-key signature does not verify under the reference's blinded key")
+					return
+				}
+				c.Class("rare_blinding_factors")
+			})
+			if pan {
+				bad("panic:"+where, pv)
+			}
+		}
+		c.Distinctf("rare-factor:%d", fi)
+	}
+	// public keys with extreme encodings
+	if c.Next() {
+		r := c.CaseRng()
+		var ys []*big.Int
+		p := ref.EdP
+		for t := int64(1); t < 60; t++ {
+			ys = append(ys, new(big.Int).Sub(p, big.NewInt(t)), new(big.Int).Add(new(big.Int).Sub(new(big.Int).Lsh(big.NewInt(1), 255), new(big.Int).Lsh(big.NewInt(1), 231)), big.NewInt(t)), big.NewInt(t+1))
+		}
+		n := 0
+		for _, y := range ys {
+			for _, sign := range []byte{0, 0x80} {
+				enc := le32(y)
+				enc[31] |= sign
+				A, ok := ref.EdDecode(enc)
+				if !ok || !bytes.Equal(ref.EdEncode(A), enc) {
+					continue
+				}
+				blind, ctx := r.Bytes(32), r.Bytes(r.IntN(12))
+				want := ref.EdEncode(ref.EdMul(c15Scalar(blind, ctx), A))
+				c.Eval(1)
+				d := map[string]any{"public_key": core.Hex(enc), "blind": core.Hex(blind), "context": core.Hex(ctx)}
+				pan, pv, _ := core.Guard(func() {
+					bp, err := ed25519.BlindPublicKeyWithContext(ed25519.PublicKey(enc), blind, ctx)
+					if err != nil || !bytes.Equal(bp, want) {
+						c.Violation("extreme-key:blinded-key-differs", fmt.Sprintf("blinding a public key with an extreme (canonical) encoding does not give the reference's key (err=%v)", err), d)
+						return
+					}
+					// unblinding inverts blinding on the prime-order subgroup only (a point with a torsion component is multiplied by
+					// k*k^-1 = 1 mod L, which is not 1 mod 8L); the statement is about ordinary keys, so the inverse is checked there
+					if bytes.Equal(ref.EdEncode(ref.EdMul(ref.EdL, A)), ref.EdEncode(ref.EdIdentity())) {
+						up, err := ed25519.UnblindPublicKeyWithContext(bp, blind, ctx)
+						if err != nil || !bytes.Equal(up, enc) {
+							c.Violation("extreme-key:unblind-does-not-invert", fmt.Sprintf("Unblind(Blind(A)) != A for a prime-order public key with an extreme encoding (err=%v)", err), d)
+							return
+						}
+						c.Class("extreme_prime_order_keys_unblinded")
+					}
+					n++
+				})
+				if pan {
+					c.Violation("extreme-key:panic", pv, d)
+				}
+			}
+		}
+		c.ClassN("extreme_public_key_encodings", int64(n))
+	}
+}
+
 func runC15(c *core.Ctx) {
+	c15RareFactors(c)
 	for h := 0; h < c.Pick(24, 1500); h++ {
 		if c.Next() {
 			c15History(c, c.CaseRng(), fmt.Sprint(h))
